@@ -11,7 +11,7 @@ QUANTS_SMALL = {('Optional', 0, 1, True), ('Optional', 0, 1, False), ('Indefinit
                 ('OneOrMore', 1, -1, False), ('Exactly', 2, 2, True), ('AtLeastAtMost', 1, 2, True),
                 ('AtLeast', 2, -1, False), ('AtMost', 0, 2, True), ('Mul', 3, 3, True)}
 QUANTS_TWO = {('Optional', 0, 1, True), ('OneOrMore', 1, -1, False)}
-SPINE_INVARIANTS = ['OkIsWF', 'OutcomeTotal', 'RepeatRule', 'LookbehindRule']
+SPINE_INVARIANTS = ['OkIsWF', 'OutcomeTotal', 'RepeatRule', 'LookbehindRule', 'PrecSafeInv']
 SPINE_PROPS = ['EmptyNeutralStep', 'EmptyNegRaises']
 
 ASSUME = ['CPython re executes both the emitted pattern and the reference text (engine quirks cancel)',
@@ -292,6 +292,9 @@ def generic(prop, facets, rule, configs_fn, args_tier=None, seeds=(0,), mode='rr
            'facets_judged': sorted(facets), 'hash_seeds': list(seeds),
            'outcomes': {k[8:]: v for k, v in st.items() if k.startswith('outcome:')},
            'oracle_calibrated_cases': st.get('calibrated', 0), 'codepoints_swept': swept,
+           'layer_I_drift': {'text_compared': st.get('drift:text-compared', 0), 'text_differs': st.get('drift:text-differs', 0),
+                             'type_compared': st.get('drift:type-compared', 0), 'type_differs': st.get('drift:type-differs', 0),
+                             'note': 'informational: Emit(v)/TypeOf(v) of spec/PregexImpl.tla against str(p)/_get_type(); never a verdict'},
            'exhaustive': True}
     return report(prop, tier, seed, res.agg.failures, cov, time.time() - t0, ASSUME + list(extra_assume),
                   res.model_violations)
